@@ -230,6 +230,7 @@ def check(run: Run, prog: Program, model: Model, tier: str) -> None:
         "generated values validate for all RNG outcomes (float grid arithmetic, regex matches) is not decided.")
     run.explanation += " A declared bound returned as the generated value carries every kind the declaration's isinstance guards admit for it (KIND-AGREE); when the validator rejects values that round(value, precision) changes, every generator path under that state returns round(_, precision) - the random.uniform fallback guarded by a float-product test is reported (GRID)."
     run.explanation += ' DRAW-NONEMPTY: the sequence of every random.choice draw outside the regex generator is non-empty on its path. PAYLOAD-PINNED: every Substitutor.visit_<scalar> stores the validated value itself (or K(value) for its kind K). ROUND-DIR also refuses round(random.uniform(..), precision).'
+    run.explanation += " GENERATOR-STATELESS: RegexGenerator keeps no attribute that is written outside __init__ and readable by a later or enclosing call (C09 evaluates each handler as a function of its node alone); the Generator's own re-assigned fields are havoc'd at the start of every evaluated visit instead."
     run.rule_text = ("obligations per (type, state/shape, prop) for MIRROR, per draw site and state for DRAW-ORDER, per bound "
                      "for ROUND-DIR, per type for KIND-AGREE; non-trivial = dependence / entailment derived on interpreter paths")
     from ..entry import entry_transparent
@@ -485,6 +486,13 @@ def check(run: Run, prog: Program, model: Model, tier: str) -> None:
     # it validated (a rounded / converted copy was never validated)
     from .c04 import pin_obligations
     pin_obligations(run, prog, model, tier, "PAYLOAD-PINNED")
+    # the regex path is delegated to the regex generator (C09 decides what it emits); what C01 itself needs from it is that
+    # one generate() call does not depend on what an earlier call - or an enclosing group - left on the instance
+    from .c17 import hidden_state
+    # (C09 evaluates every handler as a function of its node alone).  The Generator's own fields need no such rule: every
+    # field re-assigned outside __init__ holds an unknown value when a visit is evaluated (visits.havoc_fields), so the
+    # draw rules above already hold for whatever an earlier or enclosing visit left there.
+    hidden_state(run, prog, prog.cls("generation._regex_generator.RegexGenerator"), "GENERATOR-STATELESS")
     run.floor("PAYLOAD-PINNED", 20)
     run.floor("MIRROR", 15)
     run.floor("DRAW-ORDER", 8)
@@ -834,4 +842,16 @@ MUTANTS += [
 MUTANTS += [
     {"name": "scaled grid bounds rounded to 6 decimals before ceil/floor", "rule": "ROUND-DIR",
      "edits": [(R, "        left_number = ceil(start * scale_factor)\n        right_number = floor(end * scale_factor)", "        left_number = ceil(round(start * scale_factor, 6))\n        right_number = floor(round(end * scale_factor, 6))")]},
+]
+
+# round 7: the seeded changes that were missed on first contact, replayed against the current tree
+MUTANTS += [
+    {"name": 'seeded C01-M', "rule": 'GENERATOR-STATELESS',
+     "edits": [('d42/generation/_regex_generator.py', 'import string\nimport sys\n\n', 'import re\nimport string\nimport sys\n\n'),
+               ('d42/generation/_regex_generator.py', '        if alphabet:\n            self._alphabet.update(alphabet)\n        self._max_repeat = max_repeat\n\n    def _get_category_alphabet(self, value: Any) -> str:\n        if value == CATEGORY_DIGIT:\n', '        if alphabet:\n            self._alphabet.update(alphabet)\n        self._max_repeat = max_repeat\n        self._flags = 0\n\n    def _is_ignorecase(self) -> bool:\n        return bool(self._flags & re.IGNORECASE)\n\n    def _generate_cased(self, letter: str) -> str:\n        # under (?i) a letter stands for both of its cases\n        if self._is_ignorecase() and (letter in string.ascii_letters):\n            return self._random.random_choice((letter.lower(), letter.upper()))\n        return letter\n\n    def _get_category_alphabet(self, value: Any) -> str:\n        if value == CATEGORY_DIGIT:\n'),
+               ('d42/generation/_regex_generator.py', '        if opcode == RANGE:\n            min_ord, max_ord = val\n            ordinal = self._random.random_int(min_ord, max_ord)\n            return self._generate_literal(ordinal)\n        elif opcode == CATEGORY:\n            alphabet = self._get_category_alphabet(val)\n            return self._random.random_choice(alphabet)\n', '        if opcode == RANGE:\n            min_ord, max_ord = val\n            ordinal = self._random.random_int(min_ord, max_ord)\n            return self._generate_cased(self._generate_literal(ordinal))\n        elif opcode == CATEGORY:\n            alphabet = self._get_category_alphabet(val)\n            return self._random.random_choice(alphabet)\n'),
+               ('d42/generation/_regex_generator.py', '            elif opcode == CATEGORY:\n                exclude_letters += self._get_category_alphabet(val)\n            else:\n                exclude_letters += self._generate(opcode, val)\n\n        letters = "".join(set(self._alphabet["letters"]) - set(exclude_letters))\n        if len(letters) == 0:\n', '            elif opcode == CATEGORY:\n                exclude_letters += self._get_category_alphabet(val)\n            else:\n                exclude_letters += self._generate_literal(val)\n        if self._is_ignorecase():\n            exclude_letters += exclude_letters.swapcase()\n\n        letters = "".join(set(self._alphabet["letters"]) - set(exclude_letters))\n        if len(letters) == 0:\n'),
+               ('d42/generation/_regex_generator.py', '\n    def _generate_subpattern(self, value: Tuple[int, int, int, List[Any]]) -> str:\n        group, add_flags, del_flags, subpattern = value\n        return self._generate_pattern(subpattern)\n\n    def _generate_pattern(self, value: List[Any]) -> str:\n', '\n    def _generate_subpattern(self, value: Tuple[int, int, int, List[Any]]) -> str:\n        group, add_flags, del_flags, subpattern = value\n        # scoped inline flags: (?i:...) switches on, (?-i:...) switches off\n        self._flags = (self._flags | add_flags) & ~del_flags\n        return self._generate_pattern(subpattern)\n\n    def _generate_pattern(self, value: List[Any]) -> str:\n'),
+               ('d42/generation/_regex_generator.py', '        if opcode == ANY:\n            return self._generate_any(value)\n        elif opcode == LITERAL:\n            return self._generate_literal(value)\n        elif opcode == NOT_LITERAL:\n            return self._generate_not_literal(value)\n        elif opcode == IN:\n', '        if opcode == ANY:\n            return self._generate_any(value)\n        elif opcode == LITERAL:\n            return self._generate_cased(self._generate_literal(value))\n        elif opcode == NOT_LITERAL:\n            return self._generate_not_literal(value)\n        elif opcode == IN:\n'),
+               ('d42/generation/_regex_generator.py', '\n    def generate(self, pattern: str) -> str:\n        parsed = sre.parse(pattern)  # type: Any\n        return self._generate_pattern(parsed)\n', '\n    def generate(self, pattern: str) -> str:\n        parsed = sre.parse(pattern)  # type: Any\n        self._flags = parsed.state.flags\n        return self._generate_pattern(parsed)\n')]},
 ]
